@@ -3,7 +3,7 @@ from . import gen
 
 # few names, sharing prefixes, with characters that sort below '/' ('-', '.', '+')
 UNI_NAMES = ["a", "a-b", "a.b", "a+b", "ab", "b", "oph", "ophelia", "x_rig", "B", "rig", "cafe\u0301", "\U0001F600hero", "Ophelia", "\u212bngstrom",
-             "sword2", "sword10", "sofa", "tiara", "a1", "a01"]       # (digit runs order differently as numbers and as strings)
+             "sword2", "sword10", "sofa", "tiara", "a1", "a01", "tree{2}", "treee", "a{1,2}b"]       # (digit runs order differently as numbers and as strings)
 
 
 def leaf_templates(model, vocab):
